@@ -219,6 +219,16 @@ func init() {
 			}
 			return nil
 		},
+		"verif/symx.SharedMap": func(fr *frame, a []value) value {
+			if fr.i.sched != nil && fr.i.sched.enabled {
+				if itf, ok := a[0].(iface); ok {
+					if m, ok := itf.v.(*omap); ok && m != nil {
+						fr.i.sched.sharedObjs[m] = true
+					}
+				}
+			}
+			return nil
+		},
 		"verif/symx.MapOrder": func(fr *frame, a []value) value {
 			fr.i.mapOrderSym = a[0].(bool)
 			return nil
